@@ -331,6 +331,10 @@ def _val_cases(tier):
                 prices.append(round((h + d * st) / 100 + 0.001, 3))
                 prices.append(round(h / 100 + d * 0.01, 2))
     prices += [0, 1, 1.0, 1.005, 1.01, 1000, 1000.0, 1001, 1010, None, 2, 3, 999, 990, 995]
+    # the floating-point neighbours of ticks (what ordinary float arithmetic produces, e.g. 1.1*3): not ticks
+    for h in refs.CLASSIC[::7]:
+        prices += [math.nextafter(h / 100, 0), math.nextafter(h / 100, 2000)]
+    prices += [1.1 * 3, 0.7 + 0.6, 0.1 + 0.2 + 1.0]
     for p in prices:
         for ladder in ("CLASSIC", "FINEST"):
             cases.append(("GBP", True, "L", "BACK", p, 2.0, None, ladder, None))
@@ -430,10 +434,12 @@ def _api_slice(log_level=None):
         tm.append(dict(side="LAY", ot="LOC", liab=l, price=3.05))
         tm.append(dict(side="LAY", ot="LOC", liab=l, price=3.02))
     acts = [["P", dict(t, sel=1)] for t in tm]
+    # second update: every order that was refused is offered again unchanged (a strategy retry): refused again
+    again = [["PA", i, 0] for i in range(len(tm))]
     spec = simx.MarketSpec(book0={1: {"atb": [[1.5, 10]], "atl": [[1000, 10]]}})
     w = simx.SimWorld(
-        [(spec, [[1000, ["Q"]]])],
-        [dict(script={(0, 0): acts}, kw=dict(max_order_exposure=None, max_selection_exposure=None, max_live_trade_count=10**6))],
+        [(spec, [[1000, ["Q"]], [1000, ["Q"]]])],
+        [dict(script={(0, 0): acts, (0, 1): again}, kw=dict(max_order_exposure=None, max_selection_exposure=None, max_live_trade_count=10**6))],
     ).run()
     st = w.strategies[0]
     sent = set()
@@ -444,9 +450,19 @@ def _api_slice(log_level=None):
     cs = {Decimal(h) / 100 for h in refs.CLASSIC}
     from flumine.order.order import OrderStatus
 
-    for (mi, tick, act, res), o in zip(st.log, st.known):
+    retried = {}
+    for (mi, tick, act, res) in st.log:
+        if act[0] == "PA":
+            retried[act[1]] = res
+    first = [e for e in st.log if e[2][0] == "P"]
+    for k_, ((mi, tick, act, res), o) in enumerate(zip(first, st.known)):
         t = act[1]
         n += 1
+        if k_ in retried and retried[k_] is True:
+            exp0 = refs.validate_order_ref(t.get("ot", "L"), t["side"], t.get("price"), t.get("size"), t.get("liab"), cs, cur, True)
+            if not exp0:
+                out.append(core.v("C17.c", ("market.place_order", "CLASSIC", t.get("ot", "L"), "accepted-invalid-on-retry"), "invalid order %r refused at first, let through when offered again" % (t,), dict(tmpl=t)))
+                continue
         exp = refs.validate_order_ref(t.get("ot", "L"), t["side"], t.get("price"), t.get("size"), t.get("liab"), cs, cur, True)
         in_blotter = any(o is b for b in w.all_orders())
         got = (res is True, id(o) in sent, in_blotter)
